@@ -13,6 +13,16 @@ pub fn looks_like_conditional(content: &str) -> bool {
     content.starts_with('{') && content.contains(':')
 }
 
+/// The text after `- else:`, however the dash, the keyword and the colon are spaced.
+fn else_branch_content(trimmed: &str) -> Option<&str> {
+    trimmed
+        .strip_prefix('-')?
+        .trim_start()
+        .strip_prefix("else")?
+        .trim_start()
+        .strip_prefix(':')
+}
+
 pub fn parse_conditional(
     lines: &[Line<'_>],
     line_index: &mut usize,
@@ -70,7 +80,7 @@ pub fn parse_conditional(
         let first_body = lines[first_body_line_index].content.trim();
         if first_body.starts_with('-')
             && !first_body.starts_with("->")
-            && !first_body.starts_with("- else:")
+            && else_branch_content(first_body).is_none()
         {
             // Check that the branch looks like "- case_expr: body" (has a colon after stripping -)
             let branch_content = first_body.trim_start_matches('-').trim_start();
@@ -164,17 +174,8 @@ pub fn parse_conditional(
             return Ok(nodes);
         }
 
-        if trimmed == "- else:" {
-            in_else = true;
-            *line_index += 1;
-            if body_line.had_newline {
-                when_false.push(Node::Newline);
-            }
-            continue;
-        }
-
         // `- else: inline_content` on a single line
-        if let Some(else_content) = trimmed.strip_prefix("- else:") {
+        if let Some(else_content) = else_branch_content(trimmed) {
             in_else = true;
             *line_index += 1;
             let rest = else_content.trim();
